@@ -2,15 +2,16 @@
 # tools/tryseedwt.sh <scratch-worktree> <patch.diff> <tier> <property>...  : like tryseed.sh, but applies the change to a scratch git worktree of
 # /repo (never /repo itself) and runs the suite and the named checks through VERIF_REPO, so /verif/evidence is not touched.
 set -u
+V="$(cd "$(dirname "$0")/.." && pwd)"   # the verification directory this script lives in (normally /verif)
 WT="$1"; PATCH="$(realpath "$2")"; TIER="$3"; shift 3
 export VERIF_REPO="$WT"
 git -C "$WT" checkout -q -- . ; git -C "$WT" clean -fdq -e seed >/dev/null 2>&1
 git -C "$WT" apply "$PATCH" || { echo "patch does not apply"; exit 2; }
 trap 'git -C "$WT" checkout -q -- .' EXIT
-if /verif/bin/baseline > "$WT.base.$$" 2>&1; then echo "suite: PASS (change survives the existing tests)"; else echo "suite: FAIL"; tail -5 "$WT.base.$$"; fi
+if $V/bin/baseline > "$WT.base.$$" 2>&1; then echo "suite: PASS (change survives the existing tests)"; else echo "suite: FAIL"; tail -5 "$WT.base.$$"; fi
 rm -f "$WT.base.$$"
 for P in "$@"; do
-  OUT="$(/verif/bin/check "$P" "$TIER" 2>&1)"; RC=$?
+  OUT="$($V/bin/check "$P" "$TIER" 2>&1)"; RC=$?
   N=$(printf '%s\n' "$OUT" | grep -a -c '^VIOLATION')
   if [ $RC -eq 1 ] && [ "$N" -gt 0 ]; then echo "$P $TIER: CAUGHT ($N violation signatures) e.g. $(printf '%s\n' "$OUT" | grep -a -m1 'what:' | cut -c1-260)";
   elif [ $RC -eq 0 ]; then echo "$P $TIER: MISSED"; else echo "$P $TIER: rc=$RC $(printf '%s\n' "$OUT" | tail -2 | cut -c1-200)"; fi
